@@ -51,6 +51,7 @@ for mid in ids:
         entry["checks"][chk] = {"exit": r.returncode, "signature": sig.group(1).strip() if sig else None}
         print(mid, chk, "exit", r.returncode, sig.group(1)[:100] if sig else "", flush=True)
     entry["caught_by"] = [c for c, x in entry["checks"].items() if x["exit"] == 1]
+    results = json.loads(resf.read_text()) if resf.exists() else results   # merge with concurrent runs
     results[mid] = entry
     git("checkout", "--", ".")
     subprocess.run(f"cd {repo} && find . -name '*.orig' -delete", shell=True)
